@@ -535,10 +535,15 @@ def group_line_search_descent_task(T, fit_intercept):
     def post(out, pth):
         o0, o1, f0, f1, lin = out
         convex = L(f0) >= L(f1) - L(lin)
-        cs = [('lemma:datafit-convexity', [], convex)]
+        # the convexity lemma is a polynomial identity of this datafit: proved WITHOUT the path condition (which mentions the
+        # uninterpreted penalty value and would only slow the arithmetic solver down)
+        nlemma[0] += 1
+        T.prove(f'line-search-descent/lemma:datafit-convexity@p{nlemma[0]}', [], convex, strength='B')
+        cs = []
         if bool(pth.decisions) and bool(pth.decisions[-1]):
             cs.append(('accepted-step-decreases-datafit+penalty(w[:n_features])', [convex], L(o1) < L(o0)))
         return cs
+    nlemma = [0]
     check_contract(T, 'line-search-descent', run, zpre([a > 0]), post, strength='B', safety=False)
 
 
